@@ -29,6 +29,14 @@ class CircuitSolution(ABC):
     def get_power(self, id: str) -> Any:
         ...
 
+def _require_component(circuit: Circuit, component_id: str) -> None:
+    if component_id not in [component.id for component in circuit.components if component.type != 'ground']:
+        raise KeyError(component_id)
+
+def _require_node(circuit: Circuit, node_id: str) -> None:
+    if node_id not in [node for component in circuit.components for node in component.nodes]:
+        raise KeyError(node_id)
+
 @dataclass
 class DCSolution(CircuitSolution):
     solver: NetworkSolver = field(default=nodal_analysis_bias_point_solver)
@@ -91,14 +99,17 @@ class TimeDomainSolution(CircuitSolution):
         self._solutions = [self.solver(network) for network in networks]
 
     def get_voltage(self, component_id: str) -> TimeDomainFunction:
+        _require_component(self.circuit, component_id)
         voltages = [solution.get_voltage(component_id) for solution in self._solutions]
         return np.vectorize(lambda t: np.array(np.sum([np.abs(V)*np.cos(w*t+np.angle(V)) for V, w in zip(voltages, self.w)])))
 
     def get_current(self, component_id: str) -> TimeDomainFunction:
+        _require_component(self.circuit, component_id)
         currents = [solution.get_current(component_id) for solution in self._solutions]
         return np.vectorize(lambda t: np.array(np.sum([np.abs(V)*np.cos(w*t+np.angle(V)) for V, w in zip(currents, self.w)])))
 
     def get_potential(self, node_id: str) -> TimeDomainFunction:
+        _require_node(self.circuit, node_id)
         potentials = [solution.get_potential(node_id) for solution in self._solutions]
         return np.vectorize(lambda t: np.array(np.sum([np.abs(phi)*np.cos(w*t+np.angle(phi)) for phi, w in zip(potentials, self.w)])))
 
@@ -125,18 +136,22 @@ class FrequencyDomainSolution(CircuitSolution):
         return w, np.concatenate((np.conj(values[ac][::-1])/2, values[:len(self.w)-len(self.w[ac])], values[ac]/2))
 
     def get_voltage(self, component_id: str) -> FrequencyDomainSeries:
+        _require_component(self.circuit, component_id)
         voltages = np.array([solution.get_voltage(component_id) for solution in self._solutions])
         return self._series(voltages)
 
     def get_current(self, component_id: str) -> FrequencyDomainSeries:
+        _require_component(self.circuit, component_id)
         currents = np.array([solution.get_current(component_id) for solution in self._solutions])
         return self._series(currents)
 
     def get_potential(self, node_id: str) -> FrequencyDomainSeries:
+        _require_node(self.circuit, node_id)
         potentials = np.array([solution.get_potential(node_id) for solution in self._solutions])
         return self._series(potentials)
 
     def get_power(self, component_id: str) -> FrequencyDomainSeries:
+        _require_component(self.circuit, component_id)
         power = np.array([solution.get_power(component_id) for solution in self._solutions])
         return self._series(power)
 
